@@ -191,11 +191,9 @@ class Node(object):
     def add_namespace(self, prefix: str, namespace: str, nsmap_id: int = None):
         if nsmap_id is None:
             nsmap_id = id(self.nsmap)
-        if prefix in self.nsmap:
-            self.nsmap[prefix] = namespace
-        else:
+            # copy-on-write: the current map may be shared with nodes outside this subtree
             self.nsmap = copy.deepcopy(self.nsmap)
-            self.nsmap[prefix] = namespace
+        self.nsmap[prefix] = namespace
 
         for child in self._children:
             if id(child.nsmap) == nsmap_id:
